@@ -1,6 +1,6 @@
 From Coq Require Import List Bool Arith ZArith Lia.
 Import ListNotations.
-Require Import HT TEL TELext DecP.
+Require Import HT TEL TELext DecP CoreRun.
 (* C02 window: integrity constraints with look-ahead. A constraint with look-ahead L in part p is grounded
    - as a temporary copy guarded by __final(u) at offsets i = 0..L-1 (t = step - i, u = step), and
    - as a permanent copy at offset L (t = step - L),
@@ -32,7 +32,11 @@ Definition rule_tf (r:crule) : tf := TImp A (body_tf (cb r)) (TBot A).
 Definition ahead (b:batom) : nat := match b with BFut _ n => n | _ => 0 end.
 Fixpoint lookahead (l:list (sgn*batom)) : nat := match l with [] => 0 | (_,b)::r => Nat.max (ahead b) (lookahead r) end.
 (* ---------- operational side ---------- *)
-Inductive gatom := GU (a:A) (t:Z) | GI (t:Z) | GF (t:Z).
+(* ground atoms, decided atoms and the trace of an interpretation are those of Model/CoreRun.v *)
+Notation gatom := (CoreRun.gatom A).
+Notation GU := (CoreRun.GU A).
+Notation GI := (CoreRun.GI A).
+Notation GF := (CoreRun.GF A).
 Notation gf := (form gatom).
 Definition GTop : gf := Imp _ (Bot _) (Bot _).
 Definition GNot (f:gf) : gf := Imp _ f (Bot _).
@@ -60,13 +64,8 @@ Variable P : list crule.
 Definition rules (h:nat) : list gf := flat_map (fun s => flat_map (step_instances s) P) (seq 0 (S h)).
 (* ---------- meaning at horizon h ---------- *)
 Variable h : nat.
-Definition dec (g:gatom) : option bool :=
-  match g with
-  | GI t => Some (t =? 0)%Z
-  | GF t => Some (t =? Z.of_nat h)%Z
-  | GU a t => if (0 <=? t)%Z && (t <=? Z.of_nat h)%Z then None else Some false
-  end.
-Definition tr (I:interp gatom) : trace A := fun k a => I (GU a (Z.of_nat k)).
+Notation dec := (CoreRun.dec A h).
+Notation tr := (CoreRun.tr A).
 Definition admissible (p:spart) (k:nat) : bool := selected p k.
 Section PerInstance.
 Variables H T : interp gatom.
